@@ -21,7 +21,8 @@ import nlx
 RULE = ('tie: copy_block assembled from fragments regenerated from transform.py/memory.py (Gen/CopyAttrs.v) vs the dump of the '
         'real copy (every wire/net/memory) and vs the constructor attributes of every real memory copy; search: '
         'random API-built designs (registers with/without reset_value, read/write memories with initial '
-        'contents, write-only (log) and read-only MemBlocks incl. designs whose ONLY memories are write-only, every documented '
+        'contents, full-width selects in non-ascending bit order (w[::-1], reversed partial slices, concat-built bit permutations), '
+        'write-only (log) and read-only MemBlocks incl. designs whose ONLY memories are write-only, every documented '
         'option combination of the three calls (merge_io_vectors, skip_sanity_check, block= given/omitted), final memory '
         'contents (inspect_mem) compared, reserved (unconnected) Input/Const pins, sources already optimize()d IN PLACE before the call (a '
         'constant-masked pin left dangling), pairs of distinct MemBlocks / RomBlocks deliberately given the SAME name with different ports and '
@@ -676,6 +677,8 @@ def build(ctx, i):
     holes = add_padded_rom(rng, d) if rng.random() < 0.6 and not logs_only else None
     dup = add_same_named_memories(rng, d) if rng.random() < 0.5 and not logs_only else None
     kinds = add_memory_kinds(rng, d, read_only=not logs_only) if (rng.random() < 0.6 or logs_only) else None
+    if rng.random() < 0.6:
+        add_bit_permutations(rng, d)
     if rng.random() < 0.5:
         add_reserved_pins(rng, d)
     if rng.random() < 0.4:
@@ -706,6 +709,41 @@ def build(ctx, i):
         inputs[-1]['c11_ra'] = rng.choice(outside)
     memmap_by_id = {m.id: dict(c) for m, c in memmap.items()}
     return d, memmap, memmap_by_id, inputs
+
+
+def add_bit_permutations(rng, d):
+    """selects that take ALL bits of a wire in a non-ascending order -- the bit-reversal idiom w[::-1], reversed
+    partial slices, whole-wire ascending slices next to them -- and bit permutations rebuilt with concat; each feeds
+    an Output directly and through more logic, and (when there is one) a register"""
+    pool = sorted((w for w in d.block.wirevector_set
+                   if not isinstance(w, (pyrtl.Output, pyrtl.Const)) and 2 <= len(w) <= 40), key=lambda w: w.name)
+    if not pool:
+        return
+    with pyrtl.set_working_block(d.block, no_sanity_check=True):
+        for k in range(rng.randint(1, 3)):
+            w = rng.choice(pool)
+            n = len(w)
+            rev = w[::-1]
+            o = pyrtl.Output(n, 'c11_rev%d' % k)
+            o <<= rev
+            other = gen_designs.fit(rng, rng.choice(pool), n)
+            o2 = pyrtl.Output(n, 'c11_revmix%d' % k)
+            o2 <<= (rev & other) | other[::-1] if rng.random() < 0.5 else rev ^ w[:]
+            if n >= 3:
+                j = rng.randint(1, n - 1)
+                o3 = pyrtl.Output(j + 1, 'c11_revpart%d' % k)
+                o3 <<= w[j::-1]
+            if rng.random() < 0.5:
+                perm = list(range(n))
+                rng.shuffle(perm)
+                o4 = pyrtl.Output(n, 'c11_perm%d' % k)
+                o4 <<= pyrtl.concat_list([w[i] for i in perm])
+        if d.regs and rng.random() < 0.6:
+            r = rng.choice([x for x in d.regs])
+            if len(r) >= 2:
+                o5 = pyrtl.Output(len(r), 'c11_revreg')
+                o5 <<= r[::-1] ^ r
+    d.ops.append('bit-permutations')
 
 
 def add_memory_kinds(rng, d, read_only=True):
